@@ -305,7 +305,9 @@ class ExcelInPython:
             case 1:
                 return self._match(lookup_value, lookup_array, match_mode)
             case -1:
-                return self._match(lookup_value, lookup_array[::-1], match_mode)
+                # searched from the end: translate the position in the reversed array back
+                reversed_index = self._match(lookup_value, lookup_array[::-1], match_mode)
+                return len(lookup_array) - reversed_index + 1 if isinstance(reversed_index, int) else reversed_index
             case 2:
                 index = self._binary_search(lookup_array, lookup_value)[output_value]
                 return index + 1 if index != -1 else '#N/A'
